@@ -444,6 +444,18 @@ class BuiltinMixin:
             return outs
         raise Unsupported(f'mapping view of {c.qualname if c else v!r}', node)
 
+    def sequence_delegate(self, c):
+        """name of the private list a repository Sequence class delegates __getitem__/__len__ to (derived from the source)"""
+        g, l = c.lookup('__getitem__'), c.lookup('__len__')
+        if g is None or l is None or g.cls.external or l.cls.external:
+            return None
+        import re
+        m1 = re.match(r'return self\.(\w+)\[(\w+)\]$', ast.unparse(g.node.body[-1]))
+        m2 = re.match(r'return len\(self\.(\w+)\)$', ast.unparse(l.node.body[-1]))
+        if m1 and m2 and m1.group(1) == m2.group(1) and len(g.node.body) == 1:
+            return m1.group(1)
+        return None
+
     def mapping_delegate(self, c):
         """name of the private dict attribute a repository Mapping class delegates to, derived from its __iter__"""
         f = c.lookup('__iter__')
